@@ -124,13 +124,17 @@ struct World6 {
     errs: Vec<String>,
     max_single_seen: usize,
     convergence_checks: u64,
+    legit_checks: u64,
     frames: u64,
     /// a panic unwound through App::update: the world is poisoned, nothing more is fed
     dead: bool,
+    /// Miri lane: only the server app runs (the client apply path has a known, unrelated Miri report)
+    server_only: bool,
+    max_inputs: u64,
 }
 
 impl World6 {
-    fn new(auth: AuthMethod, verbose: bool) -> Self {
+    fn new(auth: AuthMethod, verbose: bool, server_only: bool, max_inputs: u64) -> Self {
         let mut server = mk(auth);
         server.world_mut().resource_mut::<RepliconServer>().set_running(true);
         let unauth = server.world_mut().spawn(ConnectedClient { max_size: 1200 }).id();
@@ -159,8 +163,11 @@ impl World6 {
             errs: vec![],
             max_single_seen: 0,
             convergence_checks: 0,
+            legit_checks: 0,
             frames: 0,
             dead: false,
+            server_only,
+            max_inputs,
         };
         if auth == AuthMethod::Custom {
             w.server.world_mut().entity_mut(good_ent).insert(AuthorizedClient);
@@ -192,6 +199,10 @@ impl World6 {
         if !self.server_update("legitimate traffic") {
             return false;
         }
+        if self.server_only {
+            self.server.world_mut().resource_mut::<RepliconServer>().drain_sent().for_each(drop);
+            return true;
+        }
         let msgs: Vec<_> = self.server.world_mut().resource_mut::<RepliconServer>().drain_sent().collect();
         for (e, ch, m) in msgs {
             if e == self.good_ent {
@@ -212,7 +223,14 @@ impl World6 {
     }
 
     fn feed_batch(&mut self, sender_auth: bool, batch: &[(usize, Vec<u8>)]) {
-        if self.dead {
+        let legit = !self.server_only && (batch.len() > 1 || self.inputs % 16 == 7);
+        self.feed_batch_with(sender_auth, batch, legit);
+    }
+
+    /// `legit`: a well-behaved client's event is queued behind the hostile messages of the same
+    /// server frame and must still be handled in that frame.
+    fn feed_batch_with(&mut self, sender_auth: bool, batch: &[(usize, Vec<u8>)], legit: bool) {
+        if self.dead || self.inputs >= self.max_inputs {
             return;
         }
         let sender = if sender_auth { self.authd } else { self.unauth };
@@ -225,6 +243,19 @@ impl World6 {
                 let _ = std::io::stdout().flush();
             }
             self.server.world_mut().resource_mut::<RepliconServer>().insert_received(sender, *ch, Bytes::copy_from_slice(bytes));
+        }
+        let mut legit_seq = None;
+        if legit {
+            self.good_seq += 1;
+            let seq = self.good_seq;
+            self.good.world_mut().send_event(Good(seq));
+            self.good.update();
+            let msgs: Vec<_> = self.good.world_mut().resource_mut::<RepliconClient>().drain_sent().collect();
+            for (ch, m) in msgs {
+                self.server.world_mut().resource_mut::<RepliconServer>().insert_received(self.good_ent, ch, m);
+            }
+            self.server.world_mut().resource_mut::<Seen>().good.clear();
+            legit_seq = Some(seq);
         }
         MAX_REQ.store(0, Relaxed);
         SUM_REQ.store(0, Relaxed);
@@ -241,14 +272,29 @@ impl World6 {
             self.errs.push(format!("server requested a single allocation of {max} bytes ({sum} bytes in total) while processing {what}"));
         }
         if ok {
-            // mismatch notifications, disconnect requests etc. are not our business here
-            self.server.world_mut().resource_mut::<RepliconServer>().drain_sent().for_each(drop);
+            if let Some(seq) = legit_seq {
+                self.legit_checks += 1;
+                let ge = self.good_ent;
+                if !self.server.world().resource::<Seen>().good.contains(&(ge, seq)) {
+                    self.errs.push(format!("an event of a well-behaved client queued in the same frame behind {what} was not handled by the server"));
+                }
+            }
+            // mismatch notifications, disconnect requests etc. are not our business here; replication
+            // for the well-behaved client is delivered so that it stays in sync
+            let msgs: Vec<_> = self.server.world_mut().resource_mut::<RepliconServer>().drain_sent().collect();
+            if legit_seq.is_some() {
+                for (e, ch, m) in msgs {
+                    if e == self.good_ent {
+                        self.good.world_mut().resource_mut::<RepliconClient>().insert_received(ch, m);
+                    }
+                }
+            }
         }
     }
 
     /// The server must keep serving a well-behaved client: replication and events.
     fn check_service(&mut self, after: &str) {
-        if !self.errs.is_empty() {
+        if !self.errs.is_empty() || self.server_only {
             return;
         }
         self.convergence_checks += 1;
@@ -508,7 +554,8 @@ fn run_seed(seed: u64, thorough: bool, w: &mut World6) -> (&'static str, String)
             for _ in 0..1500 {
                 let len = r.below(25);
                 let m: Vec<u8> = (0..len).map(|_| hostile_byte(&mut r)).collect();
-                w.feed(r.below(2) == 0, r.below(nch), &m);
+                let ch = if r.below(3) == 0 { nch - 1 } else { r.below(nch) };
+                w.feed(r.below(2) == 0, ch, &m);
             }
             desc = "1500 random varint-heavy byte strings <= 24 bytes on random channels".to_string();
             "random"
@@ -521,7 +568,8 @@ fn run_seed(seed: u64, thorough: bool, w: &mut World6) -> (&'static str, String)
                 let batch: Vec<(usize, Vec<u8>)> = (0..n)
                     .map(|_| {
                         let len = r.below(40);
-                        (r.below(nch), (0..len).map(|_| hostile_byte(&mut r)).collect())
+                        let ch = if r.below(3) == 0 { nch - 1 } else { r.below(nch) };
+                        (ch, (0..len).map(|_| hostile_byte(&mut r)).collect())
                     })
                     .collect();
                 w.feed_batch(r.below(2) == 0, &batch);
@@ -575,7 +623,7 @@ fn main() {
     let thorough = args.get("--tier") == Some("thorough");
     if let Some(seed) = args.get("--replay") {
         let seed: u64 = seed.parse().unwrap();
-        let mut w = World6::new(auth_for(seed), true);
+        let mut w = World6::new(auth_for(seed), true, args.flag("--server-only"), args.num("--max-inputs", u64::MAX));
         let (k, d) = run_seed(seed, thorough || args.flag("--thorough"), &mut w);
         println!("{k}: {d}");
         for e in &w.errs {
@@ -589,6 +637,8 @@ fn main() {
     let out = args.get("--out").expect("--out").to_string();
     let replay_dir = args.get("--replay-dir").unwrap_or("/verif/replays").to_string();
     let progress = format!("{out}.progress");
+    let server_only = args.flag("--server-only");
+    let per_seed: u64 = args.num("--max-inputs", u64::MAX);
     let mut res = ShardResult::default();
     let mut world: Option<(AuthMethod, World6)> = None;
     for seed in from..to {
@@ -596,16 +646,20 @@ fn main() {
         let _ = std::fs::write(&progress, format!("{seed}"));
         let auth = auth_for(seed);
         if world.as_ref().is_none_or(|(a, w)| *a != auth || !w.errs.is_empty()) {
-            world = Some((auth, World6::new(auth, false)));
+            world = Some((auth, World6::new(auth, false, server_only, u64::MAX)));
         }
+        let max_inputs = 0; // placeholder, overwritten below
+        let _ = max_inputs;
         let w = &mut world.as_mut().unwrap().1;
-        let before = (w.inputs, w.frames, w.convergence_checks);
+        w.max_inputs = w.inputs.saturating_add(per_seed);
+        let before = (w.inputs, w.frames, w.convergence_checks, w.legit_checks);
         let (kind, desc) = run_seed(seed, thorough, w);
         res.runs += w.inputs - before.0;
         *res.configs.entry(format!("{kind}/{:?}", w.auth)).or_default() += 1;
         res.obs.add("hostile_messages", w.inputs - before.0);
         res.obs.add("server_frames", w.frames - before.1);
         res.obs.add("service_checks_with_wellbehaved_client", w.convergence_checks - before.2);
+        res.obs.add("same_frame_legitimate_event_checks", w.legit_checks - before.3);
         res.obs.max("max_single_allocation_request_bytes", w.max_single_seen as u64);
         if kind == "exhaustive-short" {
             res.obs.inc("exhaustive_blocks");
